@@ -1,7 +1,7 @@
 (* C04 — Content-Length bodies arrive byte-exact under any read fragmentation.
    This file contains only statements, each closed by [exact] of a lemma from
    proofs/C04_proofs.v, followed by Print Assumptions. *)
-From Verif Require Import lib.Base model.Stream model.Body proofs.C04_proofs.
+From Verif Require Import lib.Base model.Stream model.Body model.ReqBody proofs.C04_proofs proofs.C04_request.
 
 (* For every data, declared length (any integer), buffer size > 0 and read
    fragmentation schedule: the body is exactly the first Content-Length bytes
@@ -41,6 +41,71 @@ Theorem C04_F4_requested_size_variant_refuted :
     cl_loop_prefix (S (length data)) (stream_init data sc) buf cl [] <> Some (firstn cl data).
 Proof. exact F4_prefix_variant_truncates. Qed.
 Print Assumptions C04_F4_requested_size_variant_refuted.
+
+(* ---- the Request-level glue (BodyMixin._body / body, Request.copy, Request.__setitem__) ----
+   A world (model/ReqBody.v) is the family of request objects descending from one
+   request by copy(), with the streams they refer to. *)
+
+(* After any history of copies and header rewrites, the FIRST access to
+   request.body on any object of the family returns exactly the first
+   Content-Length bytes of the server stream (Content-Length as that object
+   carries it then), leaves the stream exactly behind them, never asked for a
+   byte beyond them, and caches the body on the object. *)
+Theorem C04_first_access_exact :
+  forall buf, 0 < buf ->
+  forall data sc cl0 pre r rq k,
+    forallb passive pre = true ->
+    let w := fst (run buf (world_init data sc cl0) pre) in
+    nth_error (w_reqs w) r = Some rq ->
+    exists w',
+      step buf w (OBody r k) = (w', OutBytes (take_opt k (firstn (Z.to_nat (r_cl rq)) data)))
+      /\ cached w' r (firstn (Z.to_nat (r_cl rq)) data)
+      /\ exists s', w_streams w' = [s']
+           /\ rest s' = skipn (Z.to_nat (r_cl rq)) data
+           /\ pos s' = Nat.min (Z.to_nat (r_cl rq)) (length data)
+           /\ reqs_ok buf (Z.to_nat (r_cl rq)) (reqs s').
+Proof. exact first_access_lemma. Qed.
+Print Assumptions C04_first_access_exact.
+
+(* Once a request object presents body c, it presents c (rewound: every access
+   returns a prefix of the whole c) after ANY further operations on the whole
+   family — further accesses and partial reads on any object, copies, rewrites of
+   Content-Length / Content-Type / any other header on any object, new input
+   streams on OTHER objects — and the access itself changes nothing (in
+   particular it reads no stream). *)
+Theorem C04_cached_body_stable :
+  forall buf, 0 < buf ->
+  forall w r c ops k,
+    cached w r c ->
+    forallb (fun o => negb (sets_input r o)) ops = true ->
+    let w' := fst (run buf w ops) in
+    step buf w' (OBody r k) = (w', OutBytes (take_opt k c)).
+Proof. exact stable_lemma. Qed.
+Print Assumptions C04_cached_body_stable.
+
+(* A copy of a request that already presents body c presents the same c and
+   touches no stream. *)
+Theorem C04_copy_presents_same_body :
+  forall buf, 0 < buf ->
+  forall w r c,
+    cached w r c ->
+    exists w', step buf w (OCopy r) = (w', OutNew (length (w_reqs w)))
+               /\ cached w' (length (w_reqs w)) c /\ w_streams w' = w_streams w.
+Proof. exact cached_copy. Qed.
+Print Assumptions C04_copy_presents_same_body.
+
+(* Record (documented behaviour, DESIGN 0.6): a copy taken BEFORE the first
+   access shares the one unread server stream with the original, so the object
+   that reads second is presented the bytes that follow the body. *)
+Theorem C04_copy_before_first_access_shares_stream_observation :
+  exists data sc cl buf,
+    0 < buf /\
+    snd (run buf (world_init data sc cl) [OCopy 0; OBody 0 None; OBody 1 None])
+    = [OutNew 1; OutBytes (firstn (Z.to_nat cl) data);
+       OutBytes (firstn (Z.to_nat cl) (skipn (Z.to_nat cl) data))]
+    /\ firstn (Z.to_nat cl) (skipn (Z.to_nat cl) data) <> firstn (Z.to_nat cl) data.
+Proof. exact copy_before_first_access_shares_stream. Qed.
+Print Assumptions C04_copy_before_first_access_shares_stream_observation.
 
 (* non-vacuity: a concrete fragmented, spilled read *)
 Example C04_nonvacuous :
